@@ -1,10 +1,12 @@
-import Cppcheck.Model.Exec
+import Cppcheck.Proofs.Exec
 /-
-C15 — property theorems (see docs/C15.md).
+C15 — property theorems (see docs/C15.md for the reading of every hypothesis).
 -/
 namespace Cppcheck.Serialize
+open Cppcheck.Wire
 
-theorem fixInvalidChars_idem (s : Wire.Str) : fixInvalidChars (fixInvalidChars s) = fixInvalidChars s := by
+/-- `fixInvalidChars` is idempotent: a message that went through one worker boundary is stable -/
+theorem fixInvalidChars_idem (s : Str) : fixInvalidChars (fixInvalidChars s) = fixInvalidChars s := by
   induction s with
   | nil => rfl
   | cons c r ih =>
@@ -15,4 +17,267 @@ theorem fixInvalidChars_idem (s : Wire.Str) : fixInvalidChars (fixInvalidChars s
       have hb : isPrint '\\' = true := by decide
       simp [fixInvalidChars, octal3, hb, h3, Nat.mod_lt, ih]
 
+/-- TRANSPORT ROUND TRIP, all messages: any bytes in any field, any number of call-stack frames.  What the parent
+    decodes is the message with `fixInvalidChars` applied to short/verbose/remark and `simplifyPath` to the frame files. -/
+theorem deserialize_serialize (simp : Str → Str) (m : Msg) (h : m.transportable = true) :
+    deserialize simp (serialize m) = .ok (m.sanitize simp) := deserialize_serialize_aux simp m h
+
+/-- the hypothesis is satisfiable by messages with arbitrary bytes, tabs in the info, several frames -/
+example : ({ id := "a b\t\n".toList, short := ['\x00', 'é', ';'], symbols := "12 ".toList, hash := 18446744073709551615,
+             stack := [{ file := "d/../a.c".toList, origFile := "a.c".toList, line := -1, col := 7, info := "x\ty".toList },
+                       { file := [], origFile := [], line := 2147483647, col := 4294967295 }] } : Msg).transportable = true := by decide
+
+/-- F11b: a TAB inside a call-stack file name is outside `transportable`, and the round trip is really lost there:
+    the frame of `a<TAB>b.c` comes back with file `a` and original file `b.c`. -/
+theorem deserialize_serialize_tab_counterexample :
+    ¬ ∀ (m : Msg), deserialize id (serialize m) = .ok (m.sanitize id) := by
+  intro h
+  have := h { id := ['x'], stack := [{ file := ['a', '\t', 'b'], origFile := ['o'], line := 1, col := 2 }] }
+  revert this
+  decide
+
+/-- F11: `sanitize` is not the identity — a message with a byte outside 0x20..0x7e arrives changed -/
+theorem sanitize_nonascii_counterexample : ¬ ∀ (m : Msg), m.transportable = true → m.sanitize id = m := by
+  intro h
+  have := h { short := [Char.ofNat 195, Char.ofNat 169] } (by decide)
+  revert this
+  decide
+
 end Cppcheck.Serialize
+
+namespace Cppcheck.Dedup
+open Cppcheck.Wire
+
+/-- the duplicate filter is insensitive to the arrival order: the multiset of texts it lets through is the same for
+    every permutation of the input, and so is the multiset of every observation the text determines -/
+theorem dedup_perm {α β : Type} [DecidableEq α] (key : α → Str) (obs : α → β) (l l' : List α) (h : l.Perm l')
+    (hk : ∀ a ∈ l, ∀ b ∈ l, key a = key b → obs a = obs b) :
+    ((dedup key l).map key).Perm ((dedup key l').map key) ∧ ((dedup key l).map obs).Perm ((dedup key l').map obs) := by
+  have hkeys : ((dedup key l).map key).Perm ((dedup key l').map key) := by
+    apply (List.perm_ext_iff_of_nodup (nodup_keys_dedupGo key [] l) (nodup_keys_dedupGo key [] l')).2
+    intro k
+    simp only [dedup, keys_dedupGo, List.not_mem_nil, not_false_eq_true, true_and]
+    constructor
+    · rintro ⟨x, hx, e⟩; exact ⟨x, h.subset hx, e⟩
+    · rintro ⟨x, hx, e⟩; exact ⟨x, h.symm.subset hx, e⟩
+  refine ⟨hkeys, perm_map_of_perm_keys key obs _ _ hkeys ?_⟩
+  intro a ha b hb e
+  exact hk a (mem_dedupGo key [] l a ha).1 b (h.symm.subset (mem_dedupGo key [] l' b hb).1) e
+
+/-- without "the key determines the finding" the surviving representatives depend on the order -/
+theorem dedup_perm_counterexample :
+    ¬ ∀ (l l' : List (Str × Nat)), l.Perm l' → ((dedup Prod.fst l).map Prod.snd).Perm ((dedup Prod.fst l').map Prod.snd) := by
+  intro h
+  have := h [(['k'], 1), (['k'], 2)] [(['k'], 2), (['k'], 1)] (List.Perm.swap _ _ _)
+  have h2 : ((dedup Prod.fst [((['k'] : Str), 1), (['k'], 2)]).map Prod.snd) = [1] := by decide
+  have h3 : ((dedup Prod.fst [((['k'] : Str), 2), (['k'], 1)]).map Prod.snd) = [2] := by decide
+  rw [h2, h3] at this
+  have := List.perm_singleton.1 this
+  cases this
+
+end Cppcheck.Dedup
+
+namespace Cppcheck.Exec
+open Cppcheck.Wire Cppcheck.Serialize
+
+variable {F : Type}
+
+/-- THREAD EXECUTOR = SINGLE EXECUTOR, for every file list, every logger input, every job count and EVERY schedule
+    (any enabled sequence of next / gate / print steps that ends with all workers finished):
+    the multiset of printed texts and the result counter are those of the sequential run. -/
+theorem thread_eq_single (cfg : Cfg) (raws : F → List Raw) (files : List F) (jobs : Nat) (σ : List TLabel) (s' : TState F)
+    (hE : cfg.emitDuplicates = false)
+    (hok : ∀ f ∈ files, keyOK cfg (raws f) = true ∧ safetyOK cfg (raws f) = true ∧ dedupOK cfg (raws f) = true)
+    (hk : ∀ m ∈ forwarded cfg raws files, ∀ m' ∈ forwarded cfg raws files, cfg.key m = cfg.key m' → cfg.key2 m = cfg.key2 m')
+    (hrun : trun cfg raws (tinit files jobs) σ = some s') (hterm : s'.terminal = true) :
+    (s'.sink.reported.map cfg.key2).Perm ((runSingle cfg raws files).sink.reported.map cfg.key2) ∧
+    s'.result = (runSingle cfg raws files).result := by
+  have hinv := trun_inv cfg hE raws _ _ σ _ s' (tinit_inv cfg raws files jobs) hrun
+  obtain ⟨h1, h2, h3⟩ := terminal_empty cfg raws s' hterm
+  have hI := hinv.inv
+  rw [h1, h2] at hI
+  refine ⟨(outcome_eq_single (β := Unit) cfg hE raws files hok hk s'.el s'.sink hI).1, ?_⟩
+  have := hinv.res
+  rw [h3] at this
+  simp only [List.map_nil, List.sum_nil, Nat.add_zero] at this
+  rw [this, (single_spec cfg hE raws files hok).2.2.2.2]
+
+/-- … and the same multiset of findings under every observation `obs` (canonical tuple, XML element, …) that the
+    printed text determines on the messages of the run ("the key determines the finding"). -/
+theorem thread_obs_eq_single {β : Type} (cfg : Cfg) (raws : F → List Raw) (files : List F) (jobs : Nat) (σ : List TLabel)
+    (s' : TState F) (obs : Msg → β)
+    (hE : cfg.emitDuplicates = false)
+    (hok : ∀ f ∈ files, keyOK cfg (raws f) = true ∧ safetyOK cfg (raws f) = true ∧ dedupOK cfg (raws f) = true)
+    (hk : ∀ m ∈ forwarded cfg raws files, ∀ m' ∈ forwarded cfg raws files, cfg.key m = cfg.key m' → cfg.key2 m = cfg.key2 m')
+    (hobs : ∀ m ∈ forwarded cfg raws files, ∀ m' ∈ forwarded cfg raws files, cfg.key2 m = cfg.key2 m' → obs m = obs m')
+    (hrun : trun cfg raws (tinit files jobs) σ = some s') (hterm : s'.terminal = true) :
+    (s'.sink.reported.map obs).Perm ((runSingle cfg raws files).sink.reported.map obs) := by
+  have hinv := trun_inv cfg hE raws _ _ σ _ s' (tinit_inv cfg raws files jobs) hrun
+  obtain ⟨h1, h2, _⟩ := terminal_empty cfg raws s' hterm
+  have hI := hinv.inv
+  rw [h1, h2] at hI
+  exact (outcome_eq_single cfg hE raws files hok hk s'.el s'.sink hI).2 obs hobs
+
+/-- PROCESS EXECUTOR = SINGLE EXECUTOR, for every file list, logger input, job count and EVERY schedule of
+    fork / send / exit / read / reap steps over byte-level pipes that ends with all pipes closed and all workers
+    reaped.  Hypotheses on what is sent: every forwarded message is transportable, fits a frame and is not changed by
+    `fixInvalidChars` / `simplifyPath` (`Ev.good`); the suppression lines decode. -/
+theorem process_eq_single (cfg : Cfg) (raws : F → List Raw) (sups : F → List (Bool × Suppr)) (files : List F) (jobs : Nat)
+    (σ : List PLabel) (s' : PState F)
+    (hE : cfg.emitDuplicates = false)
+    (hok : ∀ f ∈ files, keyOK cfg (raws f) = true ∧ safetyOK cfg (raws f) = true ∧ dedupOK cfg (raws f) = true)
+    (hk : ∀ m ∈ forwarded cfg raws files, ∀ m' ∈ forwarded cfg raws files, cfg.key m = cfg.key m' → cfg.key2 m = cfg.key2 m')
+    (hmsg : ∀ m ∈ forwarded cfg raws files, (Ev.err m).good cfg = true)
+    (hsup : ∀ f ∈ files, ∀ p ∈ sups f, (Ev.suppr p.1 p.2).good cfg = true)
+    (hrun : prun cfg jobs raws sups (pinit files) σ = some s') (hterm : s'.terminal = true) :
+    (s'.parent.sink.reported.map cfg.key2).Perm ((runSingle cfg raws files).sink.reported.map cfg.key2) ∧
+    s'.parent.result = (runSingle cfg raws files).result := by
+  have hgood := childEvents_good cfg raws sups files hmsg hsup
+  obtain ⟨h1, h2⟩ := prun_conc cfg hE jobs raws sups files _ hgood σ (ainit files) (ainit_inv cfg raws files)
+  have hinit : (ainit files).conc = pinit files := rfl
+  rw [hinit, hrun] at h1
+  cases ha : arun cfg jobs raws sups (ainit files) σ with
+  | none => rw [ha] at h1; cases h1
+  | some a' =>
+    rw [ha] at h1
+    simp only [Option.map_some, Option.some.injEq] at h1
+    subst h1
+    have hinv := h2 a' ha
+    obtain ⟨e1, e2⟩ := aterminal_empty cfg raws files _ a' hinv hterm
+    have hI := hinv.inv
+    rw [e1] at hI
+    refine ⟨(outcome_eq_single (β := Unit) cfg hE raws files hok hk _ _ hI).1, ?_⟩
+    show a'.parent.result = _
+    rw [e2, (single_spec cfg hE raws files hok).2.2.2.2]
+
+theorem process_obs_eq_single {β : Type} (cfg : Cfg) (raws : F → List Raw) (sups : F → List (Bool × Suppr)) (files : List F)
+    (jobs : Nat) (σ : List PLabel) (s' : PState F) (obs : Msg → β)
+    (hE : cfg.emitDuplicates = false)
+    (hok : ∀ f ∈ files, keyOK cfg (raws f) = true ∧ safetyOK cfg (raws f) = true ∧ dedupOK cfg (raws f) = true)
+    (hk : ∀ m ∈ forwarded cfg raws files, ∀ m' ∈ forwarded cfg raws files, cfg.key m = cfg.key m' → cfg.key2 m = cfg.key2 m')
+    (hobs : ∀ m ∈ forwarded cfg raws files, ∀ m' ∈ forwarded cfg raws files, cfg.key2 m = cfg.key2 m' → obs m = obs m')
+    (hmsg : ∀ m ∈ forwarded cfg raws files, (Ev.err m).good cfg = true)
+    (hsup : ∀ f ∈ files, ∀ p ∈ sups f, (Ev.suppr p.1 p.2).good cfg = true)
+    (hrun : prun cfg jobs raws sups (pinit files) σ = some s') (hterm : s'.terminal = true) :
+    (s'.parent.sink.reported.map obs).Perm ((runSingle cfg raws files).sink.reported.map obs) := by
+  have hgood := childEvents_good cfg raws sups files hmsg hsup
+  obtain ⟨h1, h2⟩ := prun_conc cfg hE jobs raws sups files _ hgood σ (ainit files) (ainit_inv cfg raws files)
+  have hinit : (ainit files).conc = pinit files := rfl
+  rw [hinit, hrun] at h1
+  cases ha : arun cfg jobs raws sups (ainit files) σ with
+  | none => rw [ha] at h1; cases h1
+  | some a' =>
+    rw [ha] at h1
+    simp only [Option.map_some, Option.some.injEq] at h1
+    subst h1
+    have hinv := h2 a' ha
+    obtain ⟨e1, _⟩ := aterminal_empty cfg raws files _ a' hinv hterm
+    have hI := hinv.inv
+    rw [e1] at hI
+    exact (outcome_eq_single cfg hE raws files hok hk _ _ hI).2 obs hobs
+
+/-- under the same hypotheses the parent never takes one of handleRead's `std::exit(EXIT_FAILURE)` / uncaught-exception
+    paths, whatever the schedule and however far the run got -/
+theorem process_never_dies (cfg : Cfg) (raws : F → List Raw) (sups : F → List (Bool × Suppr)) (files : List F) (jobs : Nat)
+    (σ : List PLabel) (s' : PState F)
+    (hE : cfg.emitDuplicates = false)
+    (hmsg : ∀ m ∈ forwarded cfg raws files, (Ev.err m).good cfg = true)
+    (hsup : ∀ f ∈ files, ∀ p ∈ sups f, (Ev.suppr p.1 p.2).good cfg = true)
+    (hrun : prun cfg jobs raws sups (pinit files) σ = some s') : s'.dead = false := by
+  have hgood := childEvents_good cfg raws sups files hmsg hsup
+  obtain ⟨h1, _⟩ := prun_conc cfg hE jobs raws sups files _ hgood σ (ainit files) (ainit_inv cfg raws files)
+  have hinit : (ainit files).conc = pinit files := rfl
+  rw [hinit, hrun] at h1
+  cases ha : arun cfg jobs raws sups (ainit files) σ with
+  | none => rw [ha] at h1; cases h1
+  | some a' =>
+    rw [ha] at h1
+    simp only [Option.map_some, Option.some.injEq] at h1
+    subst h1
+    rfl
+
+/-- exit status (as far as the executors determine it) without --safety -/
+theorem thread_exit_eq_single (cfg : Cfg) (raws : F → List Raw) (files : List F) (jobs : Nat) (σ : List TLabel) (s' : TState F)
+    (hE : cfg.emitDuplicates = false) (hS : cfg.safety = false)
+    (hok : ∀ f ∈ files, keyOK cfg (raws f) = true ∧ safetyOK cfg (raws f) = true ∧ dedupOK cfg (raws f) = true)
+    (hk : ∀ m ∈ forwarded cfg raws files, ∀ m' ∈ forwarded cfg raws files, cfg.key m = cfg.key m' → cfg.key2 m = cfg.key2 m')
+    (hrun : trun cfg raws (tinit files jobs) σ = some s') (hterm : s'.terminal = true) :
+    exitStatus cfg s'.result s'.sink = exitStatus cfg (runSingle cfg raws files).result (runSingle cfg raws files).sink := by
+  simp only [exitStatus, hS, Bool.false_and, Bool.false_eq_true, ↓reduceIte,
+    (thread_eq_single cfg raws files jobs σ s' hE hok hk hrun hterm).2]
+
+theorem process_exit_eq_single (cfg : Cfg) (raws : F → List Raw) (sups : F → List (Bool × Suppr)) (files : List F) (jobs : Nat)
+    (σ : List PLabel) (s' : PState F)
+    (hE : cfg.emitDuplicates = false) (hS : cfg.safety = false)
+    (hok : ∀ f ∈ files, keyOK cfg (raws f) = true ∧ safetyOK cfg (raws f) = true ∧ dedupOK cfg (raws f) = true)
+    (hk : ∀ m ∈ forwarded cfg raws files, ∀ m' ∈ forwarded cfg raws files, cfg.key m = cfg.key m' → cfg.key2 m = cfg.key2 m')
+    (hmsg : ∀ m ∈ forwarded cfg raws files, (Ev.err m).good cfg = true)
+    (hsup : ∀ f ∈ files, ∀ p ∈ sups f, (Ev.suppr p.1 p.2).good cfg = true)
+    (hrun : prun cfg jobs raws sups (pinit files) σ = some s') (hterm : s'.terminal = true) :
+    exitStatus cfg s'.parent.result s'.parent.sink =
+      exitStatus cfg (runSingle cfg raws files).result (runSingle cfg raws files).sink := by
+  simp only [exitStatus, hS, Bool.false_and, Bool.false_eq_true, ↓reduceIte,
+    (process_eq_single cfg raws sups files jobs σ s' hE hok hk hmsg hsup hrun hterm).2]
+
+/-! ### witnesses: the hypotheses are satisfiable, and each excluded region really differs -/
+
+/-- template `{message}`; one global suppression of id `g`; `syntaxError` is critical -/
+def exCfg (safety fix : Bool) : Cfg :=
+  { key := fun m => m.short, key2 := fun m => m.short, supG := fun v => v.errorId = ['g'], supGX := fun v => v.errorId = ['g'],
+    critical := fun id => id = "syntaxError".toList, safety := safety, dedupFix := fix, exitCode := 3, simp := id }
+
+def exMsg (id short : String) : Msg :=
+  { id := id.toList, severity := .error, short := short.toList, verbose := short.toList,
+    stack := [{ file := "h.h".toList, origFile := "h.h".toList, line := 3, col := 1 }] }
+
+/-- two files that share a header finding, a locally suppressed finding, a globally suppressed one, a remark -/
+def exRaws : Nat → List Raw
+  | 0 => [{ msg := exMsg "nullPointer" "Null pointer dereference: p" }, { msg := exMsg "x" "local", locSup := true },
+          { msg := exMsg "g" "global" }, { msg := exMsg "uninitvar" "u", remark := "why".toList }]
+  | _ => [{ msg := exMsg "nullPointer" "Null pointer dereference: p" }, { msg := exMsg "memleak" "Memory leak: q", noFail := true }]
+
+example : ∀ f ∈ [0, 1], keyOK (exCfg true false) (exRaws f) = true ∧ safetyOK (exCfg true false) (exRaws f) = true ∧
+    dedupOK (exCfg true false) (exRaws f) = true := by decide
+example : ∀ m ∈ forwarded (exCfg true false) exRaws [0, 1], (Ev.err m).good (exCfg true false) = true := by decide
+example : (forwarded (exCfg true false) exRaws [0, 1]).length = 5 := by decide
+/-- a complete schedule of the thread model (two workers, interleaved) and one of the process model exist for it -/
+example : (match trun (exCfg true false) exRaws (tinit [0, 1] 2)
+      [.next 0, .next 1, .gate 1, .gate 0, .print 0, .print 1, .gate 0, .gate 1, .print 1, .gate 0, .print 0, .next 0, .next 1] with
+    | some s => s.terminal && (s.sink.reported.length == 3) && (s.result == 1)
+    | none => false) = true := by decide
+example : (match prun (exCfg true false) 2 exRaws (fun _ => [(true, { errorId := "x".toList, fileName := "h.h".toList, lineNumber := 3 })])
+      (pinit [0, 1])
+      [.fork, .fork, .send 1, .send 0, .send 0, .read 1, .send 1, .send 1, .send 1, .send 0, .read 0, .send 0, .send 0, .exit 1, .read 1,
+       .read 0, .read 0, .read 1, .read 1, .reap 1, .exit 0, .read 0, .read 0, .read 0, .reap 0] with
+    | some s => s.terminal && (s.parent.sink.reported.length == 3) && (s.parent.result == 1) && (s.parent.recv.length == 2)
+    | none => false) = true := by decide
+
+/-- F11 (process executor prints sanitised text): the message `caf\xc3\xa9` is transportable, the process model runs to the
+    end and prints `caf\\303\\251` where the single executor model prints the bytes — `sanitize m = m` cannot be dropped. -/
+theorem process_text_nonascii_counterexample :
+    ∃ (cfg : Cfg) (raws : Nat → List Raw) (σ : List PLabel) (s' : PState Nat),
+      cfg.emitDuplicates = false ∧
+      (∀ f ∈ [0], keyOK cfg (raws f) = true ∧ safetyOK cfg (raws f) = true ∧ dedupOK cfg (raws f) = true) ∧
+      (∀ m ∈ forwarded cfg raws [0], m.transportable = true) ∧
+      prun cfg 2 raws (fun _ => []) (pinit [0]) σ = some s' ∧ s'.terminal = true ∧
+      ¬ (s'.parent.sink.reported.map cfg.key2).Perm ((runSingle cfg raws [0]).sink.reported.map cfg.key2) := by
+  let m : Msg := { id := ['e'], severity := .error, short := ['c', 'a', 'f', Char.ofNat 195, Char.ofNat 169], verbose := ['x'] }
+  let raws : Nat → List Raw := fun _ => [{ msg := m }]
+  have hrun : ∃ s', prun (exCfg false false) 2 raws (fun _ => []) (pinit [0])
+      [.fork, .send 0, .send 0, .exit 0, .read 0, .read 0, .reap 0] = some s' ∧ s'.terminal = true ∧
+      s'.parent.sink.reported.map (exCfg false false).key2 = [fixInvalidChars m.short] := by
+    cases h : prun (exCfg false false) 2 raws (fun _ => []) (pinit [0]) [.fork, .send 0, .send 0, .exit 0, .read 0, .read 0, .reap 0] with
+    | none => revert h; decide
+    | some s' =>
+      refine ⟨s', rfl, ?_, ?_⟩ <;> (revert h; decide +revert)
+  obtain ⟨s', h1, h2, h3⟩ := hrun
+  refine ⟨exCfg false false, raws, _, s', rfl, by decide, by decide, h1, h2, ?_⟩
+  rw [h3]
+  have : (runSingle (exCfg false false) raws [0]).sink.reported.map (exCfg false false).key2 = [m.short] := by decide
+  rw [this]
+  intro hp
+  have := List.perm_singleton.1 hp
+  revert this
+  decide
+
+end Cppcheck.Exec
